@@ -961,7 +961,10 @@ def find_distributed_partition(
     sent_ary_to_name: dict[Array, str] = {}
     for ary in sent_arrays:
         pid = stored_ary_to_part_id[ary]
-        name = gen_array_name(ary)
+        # A received array that is sent on as is needs a second name: the
+        # part's receive and its output must not share one.
+        name = (array_name_gen() if ary in recvd_ary_to_name
+                else gen_array_name(ary))
         sent_ary_to_name[ary] = name
         name_to_output_per_part[pid][name] = ary
 
